@@ -1,125 +1,90 @@
 /-
-  C14: the set of outcomes of ValidatePolicyDocument over all map iteration orders is spanned by two
-  orders — `s3:*` first (most permissive) and `s3:*` last (least permissive).  This is what the
-  driver reports to the harness as the set of admissible observations.
+  C14: ValidatePolicyDocument does not depend on the order in which Go iterates the action maps
+  (since the fix ade9d47 the action/resource-kind loop `continue`s at `s3:*` instead of `break`ing).
 -/
 import Vgw.Lemmas.ValidateDoc
 namespace Vgw.Lemmas.Validate
 open Vgw Vgw.Go.Strings Vgw.Model.Policy Vgw.Spec.Policy Vgw.Lemmas.Policy
 
-theorem actionKind_all_iff (a : Bytes) : actionKind a = .all ↔ a = allActions := by
-  constructor
-  · intro h
-    by_cases e : a = allActions
-    · exact e
-    · exfalso
-      unfold actionKind at h
-      rw [if_neg e] at h
-      split at h
-      · cases h
-      · split at h
-        · split at h <;> cases h
-        · split at h <;> cases h
-  · intro e; rw [e]; exact actionKind_all
+theorem actionKind_ne_panic (a : Bytes) (hv : actionIsValid a = true) : actionKind a ≠ .panic := by
+  by_cases hall : a = allActions
+  · rw [hall, actionKind_all]; intro e; cases e
+  · have hnil : a ≠ [] := by intro e; rw [e, actionIsValid_nil] at hv; cases hv
+    rcases actionKind_cases a hall hnil with ⟨h, _⟩ | ⟨h, _⟩ <;> rw [h] <;> intro e <;> cases e
 
-/-- without `s3:*` the loop succeeds iff every action passes: independent of the order -/
-theorem kindLoop_ok_iff_noall (o b : Bool) (l : List Bytes) (h : allActions ∉ l) :
-    kindLoop o b l = .ok () ↔ ∀ a ∈ l, StepOKb o b a := by
-  constructor
-  · intro hk
-    exact kindLoop_ok_inv' o b l hk (fun a ha e => h ((actionKind_all_iff a).1 e ▸ ha))
-  · exact kindLoop_ok_of' o b l
+/-- two traversals of the same set of (non-empty) actions end alike -/
+theorem kindLoop_order (o b : Bool) (l1 l2 : List Bytes) (hmem : ∀ a, a ∈ l1 ↔ a ∈ l2)
+    (hnp : ∀ a ∈ l1, actionKind a ≠ .panic) : kindLoop o b l1 = kindLoop o b l2 := by
+  have hnp2 : ∀ a ∈ l2, actionKind a ≠ .panic := fun a ha => hnp a ((hmem a).2 ha)
+  have hiff : kindLoop o b l1 = .ok () ↔ kindLoop o b l2 = .ok () := by
+    rw [kindLoop_ok_iff', kindLoop_ok_iff']
+    exact ⟨fun h a ha => h a ((hmem a).2 ha), fun h a ha => h a ((hmem a).1 ha)⟩
+  rcases kindLoop_cases o b l1 hnp with h1 | h1 <;> rcases kindLoop_cases o b l2 hnp2 with h2 | h2
+  · rw [h1, h2]
+  · have := hiff.1 h1; rw [h2] at this; cases this
+  · have := hiff.2 h2; rw [h1] at this; cases this
+  · rw [h1, h2]
 
-theorem kindLoop_append_noall (o b : Bool) (xs ys : List Bytes) (h : allActions ∉ xs)
-    (hk : kindLoop o b (xs ++ ys) = .ok ()) : ∀ a ∈ xs, StepOKb o b a := by
-  induction xs with
-  | nil => intro a ha; cases ha
-  | cons x rest ih =>
-    have hx : actionKind x ≠ .all := fun e => h ((actionKind_all_iff x).1 e ▸ List.mem_cons_self)
-    rw [List.cons_append, kindLoop] at hk
-    cases hkx : actionKind x with
-    | all => exact absurd hkx hx
-    | panic => rw [hkx] at hk; cases hk
-    | object =>
-      rw [hkx] at hk
-      cases o with
-      | false => cases hk
-      | true =>
-        intro a ha
-        rcases List.mem_cons.1 ha with rfl | ha
-        · exact Or.inr (Or.inl ⟨hkx, rfl⟩)
-        · exact ih (fun hm => h (List.mem_cons_of_mem _ hm)) hk a ha
-    | bucket =>
-      rw [hkx] at hk
-      cases b with
-      | false => cases hk
-      | true =>
-        intro a ha
-        rcases List.mem_cons.1 ha with rfl | ha
-        · exact Or.inr (Or.inr ⟨hkx, rfl⟩)
-        · exact ih (fun hm => h (List.mem_cons_of_mem _ hm)) hk a ha
-
-theorem mem_filter_ne (l : List Bytes) (a : Bytes) :
-    a ∈ l.filter (· ≠ allActions) ↔ a ∈ l ∧ a ≠ allActions := by
-  rw [List.mem_filter]; simp
-
-/-- `s3:*` first is the most permissive order -/
-theorem kindLoop_allFirst (o b : Bool) (ord : List Bytes → List Bytes) (hord : OrdOK ord)
-    (l : List Bytes) (h : kindLoop o b (ord l) = .ok ()) : kindLoop o b (allFirst l) = .ok () := by
-  by_cases hall : allActions ∈ l
-  · unfold allFirst
-    have : allActions ∈ l.filter (· = allActions) := by rw [List.mem_filter]; simp [hall]
-    cases hf : l.filter (· = allActions) with
-    | nil => rw [hf] at this; cases this
-    | cons x t =>
-      have hx : x ∈ l.filter (· = allActions) := by rw [hf]; simp
-      rw [List.mem_filter] at hx
-      have hxe : x = allActions := by simpa using hx.2
-      rw [List.cons_append, kindLoop, hxe, actionKind_all]
-  · have hno : allActions ∉ ord l := fun hm => hall ((hord l _).1 hm)
-    have hsteps := (kindLoop_ok_iff_noall o b (ord l) hno).1 h
-    apply kindLoop_ok_of'
+theorem decodeStmt_actions_valid (r : RawStmt) (st : Stmt) (h : decodeStmt r = .ok st) :
+    ∀ a ∈ st.actions, actionIsValid a = true := by
+  obtain ⟨_, _, hda, _⟩ := (decodeStmt_ok_iff r st).1 h
+  rcases decodeField_ok _ _ _ _ hda with ⟨_, he⟩ | ⟨l, _, hadd, _⟩
+  · intro a ha; rw [he] at ha; cases ha
+  · obtain ⟨_, hmem, _⟩ := addAll_ok _ l _ hadd
     intro a ha
-    unfold allFirst at ha
-    rw [List.mem_append, List.mem_filter, List.mem_filter] at ha
-    have : a ∈ l := by rcases ha with ha | ha <;> exact ha.1
-    exact hsteps a ((hord l a).2 this)
+    obtain ⟨x, _, hx⟩ := (hmem a).1 ha
+    obtain ⟨hv, e⟩ := (addAction_ok_iff x a).1 hx
+    rw [e]; exact hv
 
-/-- `s3:*` last is the least permissive order -/
-theorem kindLoop_allLast (o b : Bool) (ord : List Bytes → List Bytes) (hord : OrdOK ord)
-    (l : List Bytes) (h : kindLoop o b (allLast l) = .ok ()) : kindLoop o b (ord l) = .ok () := by
-  unfold allLast at h
-  have hno : allActions ∉ l.filter (· ≠ allActions) := fun hm => ((mem_filter_ne l _).1 hm).2 rfl
-  have hsteps := kindLoop_append_noall o b _ _ hno h
-  apply kindLoop_ok_of'
-  intro a ha
-  have hal := (hord l a).1 ha
-  by_cases e : a = allActions
-  · left; rw [e]; exact actionKind_all
-  · exact hsteps a ((mem_filter_ne l a).2 ⟨hal, e⟩)
+theorem decodeStmts_actions_valid (l : List RawStmt) (pol : Policy) (h : decodeStmts l = .ok pol) :
+    ∀ st ∈ pol, ∀ a ∈ st.actions, actionIsValid a = true := by
+  induction l generalizing pol with
+  | nil => rw [decodeStmts] at h; cases h; intro st hst; cases hst
+  | cons r rest ih =>
+    obtain ⟨st, sts, h1, h2, rfl⟩ := (decodeStmts_cons r rest pol).1 h
+    intro x hx
+    rcases List.mem_cons.1 hx with rfl | hx
+    · exact decodeStmt_actions_valid r _ h1
+    · exact ih sts h2 x hx
 
-theorem validateStmt_order (bucket : Bytes) (acct : Bytes → Bool) (st : Stmt) (f g : List Bytes → List Bytes)
-    (hfg : ∀ o b, kindLoop o b (f st.actions) = .ok () → kindLoop o b (g st.actions) = .ok ())
-    (h : validateStmt bucket acct { st with actions := f st.actions } = .ok ()) :
-    validateStmt bucket acct { st with actions := g st.actions } = .ok () := by
-  rw [validateStmt_ok_iff] at h ⊢
-  exact ⟨h.1, h.2.1, h.2.2.1, hfg _ _ h.2.2.2⟩
+theorem validateStmt_order (bucket : Bytes) (acct : Bytes → Bool) (st : Stmt)
+    (f g : List Bytes → List Bytes) (hf : OrdOK f) (hg : OrdOK g)
+    (hv : ∀ a ∈ st.actions, actionIsValid a = true) :
+    validateStmt bucket acct { st with actions := f st.actions } =
+      validateStmt bucket acct { st with actions := g st.actions } := by
+  have hk := kindLoop_order (containsObjectPattern st.resources) (containsBucketPattern st.resources)
+    (f st.actions) (g st.actions) (fun a => by rw [hf, hg])
+    (fun a ha => actionKind_ne_panic a (hv a ((hf _ a).1 ha)))
+  unfold validateStmt
+  dsimp only
+  rw [hk]
 
-theorem validatePolicy_order (bucket : Bytes) (acct : Bytes → Bool) (pol : Policy) (f g : List Bytes → List Bytes)
-    (hfg : ∀ o b l, kindLoop o b (f l) = .ok () → kindLoop o b (g l) = .ok ())
-    (h : validatePolicy bucket acct (reorder f pol) = .ok ()) :
-    validatePolicy bucket acct (reorder g pol) = .ok () := by
+theorem validatePolicy_order (bucket : Bytes) (acct : Bytes → Bool) (pol : Policy)
+    (f g : List Bytes → List Bytes) (hf : OrdOK f) (hg : OrdOK g)
+    (hv : ∀ st ∈ pol, ∀ a ∈ st.actions, actionIsValid a = true) :
+    validatePolicy bucket acct (reorder f pol) = validatePolicy bucket acct (reorder g pol) := by
   induction pol with
   | nil => rfl
   | cons st rest ih =>
-    rw [reorder_cons, validatePolicy_cons] at h ⊢
-    exact ⟨validateStmt_order bucket acct st f g (fun o b => hfg o b _) h.1, ih h.2⟩
+    rw [reorder_cons, reorder_cons, validatePolicy, validatePolicy,
+      validateStmt_order bucket acct st f g hf hg (hv st (by simp)),
+      ih (fun x hx => hv x (by simp [hx]))]
 
-theorem validateDocument_order (bucket : Bytes) (acct : Bytes → Bool) (doc : RawDoc) (f g : List Bytes → List Bytes)
-    (hfg : ∀ o b l, kindLoop o b (f l) = .ok () → kindLoop o b (g l) = .ok ())
-    (h : validateDocument f bucket acct doc = .ok ()) : validateDocument g bucket acct doc = .ok () := by
-  rw [validateDocument_ok_iff] at h ⊢
-  obtain ⟨pol, hd, hl, hv⟩ := h
-  exact ⟨pol, hd, hl, validatePolicy_order bucket acct pol f g hfg hv⟩
+theorem validateDocument_order (bucket : Bytes) (acct : Bytes → Bool) (doc : RawDoc)
+    (f g : List Bytes → List Bytes) (hf : OrdOK f) (hg : OrdOK g) :
+    validateDocument f bucket acct doc = validateDocument g bucket acct doc := by
+  unfold validateDocument
+  cases hd : decodeDoc doc with
+  | error e => rfl
+  | ok pol =>
+    simp only [bind, Except.bind]
+    by_cases hl : pol.length = 0
+    · rw [if_pos hl, if_pos hl]
+    · rw [if_neg hl, if_neg hl]
+      apply validatePolicy_order bucket acct pol f g hf hg
+      cases doc with
+      | badJson => cases hd
+      | noStatement => cases hd
+      | stmts l => exact decodeStmts_actions_valid l pol hd
 
 end Vgw.Lemmas.Validate
